@@ -110,6 +110,7 @@ class Preprocessor(Transformer):
         self.compute = compute
 
         self.n_data = None
+        self.sample_dims = None
 
         dim_names_as_kwargs = {
             "sample_name": self.sample_name,
@@ -142,7 +143,7 @@ class Preprocessor(Transformer):
         self.concatenator = Concatenator(**dim_names_as_kwargs)
 
     def get_serialization_attrs(self) -> dict:
-        return dict(n_data=self.n_data)
+        return dict(n_data=self.n_data, sample_dims=self.sample_dims)
 
     def transformer_types(self):
         """Ordered list of transformer operations."""
@@ -198,6 +199,8 @@ class Preprocessor(Transformer):
         X = convert_to_list(X)
         self.n_data = len(X)
         sample_dims, feature_dims = get_dims(X, sample_dims)
+        self.sample_dims = list(sample_dims)
+        X = self._align_samples(X)
 
         # For each DataArray a list of feature dimensions must be provided
         _check_parameter_number("feature_dims", feature_dims, self.n_data)
@@ -252,7 +255,7 @@ class Preprocessor(Transformer):
                 f"len(data objects used for fitting)={self.n_data}"
             )
 
-        X_t = X.copy()
+        X_t = self._align_samples(X.copy())
         for transformer in self.get_transformers():
             X_t = transformer.transform(X_t)  # type: ignore
 
@@ -352,6 +355,18 @@ class Preprocessor(Transformer):
             X_it = transformer.inverse_transform_scores_unseen(X_it)
 
         return X_it
+
+    def _align_samples(self, X: list[Data]) -> list[Data]:
+        """Bring the items of a list into a common order of their sample labels.
+
+        The items are stacked one by one and then concatenated along the features. Stacked
+        sample dimensions are numbered by position, so items that store the same labelled
+        samples in a different order would otherwise be paired by position.
+        """
+        if len(X) < 2 or not self.sample_dims:
+            return X
+        other_dims = {d for x in X for d in x.dims if d not in self.sample_dims}
+        return list(xr.align(*X, join="outer", exclude=other_dims))
 
     def _process_output(self, X: list[Data]) -> list[Data] | Data:
         if self.return_list:
